@@ -33,6 +33,8 @@ pub enum PullAs {
     /// lists: iterate to the first error, convert every spec
     IterNumList,
     IterChanList,
+    /// try every conversion above on the token (errors are expected and ignored)
+    All,
 }
 
 #[derive(Clone, Copy, Debug, PartialEq, Eq, Hash, Serialize, Deserialize)]
@@ -275,6 +277,19 @@ fn convert(dev: &mut LogDev, tok: Token, as_: &PullAs) -> core::result::Result<S
         PullAs::Auto => format!("{:?}", scpi_contrib::scpi1999::util::Auto::try_from(tok)?),
         PullAs::IterNumList => drive_lists(dev, tok, false)?,
         PullAs::IterChanList => drive_lists(dev, tok, true)?,
+        PullAs::All => {
+            let mut ok = 0;
+            for k in all_pull_kinds() {
+                if matches!(k, PullAs::Raw | PullAs::DataI32 | PullAs::DataF64 | PullAs::DataBool | PullAs::DataBytes | PullAs::All) {
+                    continue;
+                }
+                match convert(dev, tok, &k) {
+                    Ok(_) => ok += 1,
+                    Err(e) => note_error(dev, "conversion", &e),
+                }
+            }
+            format!("all:{ok}")
+        }
     })
 }
 
